@@ -5,7 +5,9 @@ CONSTANTS
   BackSeq <- MCBackSeq
   MethodExcluded = FALSE
   PurgeEvictsLive = TRUE
+  ExpiresIgnored = FALSE
   MaxOps = 8
+  MaxTimeouts = 1
 VIEW PropView
 INVARIANTS Sticky PinsAreAnswered
 PROPERTIES Balanced StickyStep
